@@ -114,5 +114,9 @@ class Existing_Potential_Form(object):
 
   def __call__(self, *args):
     self._check_call(*args)
-    f = self._potential_form(*args)
+    try:
+      f = self._potential_form(*args)
+    except (ValueError, ArithmeticError) as e:
+      # Parameters the potential form cannot be built from (e.g. as.buck4 with r_min outside r_detach..r_attach)
+      raise Potential_Form_Exception("Could not create potential form '{}' from parameters {}: {}".format(self.signature.label, " ".join([str(a) for a in args]), e))
     return f
